@@ -1443,7 +1443,9 @@ class Node:
         conn.acct_application_ids = supported_acct_apps
         conn.origin_host = self.origin_host
         conn.host_identity = cer_origin_host
-        conn.host_ip_address = [i[1] for i in message.host_ip_address]
+        # an address that could not be decoded is present as `None`
+        conn.host_ip_address = [
+            i[1] for i in message.host_ip_address if i is not None]
 
         self._assign_peer_connection(conn)
         self._flag_connection_as_ready(conn)
